@@ -386,8 +386,7 @@ fn c07(r: &Run, rec: &StepRec) {
         Some(x) => x,
         None => return, // the closing trade cannot be quoted: outside the property's precondition
     };
-    // open, registered, quotable, inside the band (no fluctuation limit in these deployments),
-    // non-zero fee, insurance fund funded: a failure is only acceptable if the position is not
+    // open, registered, quotable, inside the band, non-zero fee, insurance fund funded: a failure is only acceptable if the position is not
     // under-margined (for every value on this path)
     let st = &rec.pre.vamm[r.vi];
     if !st.open || !r.w.is_vamm(r.vi) {
@@ -405,7 +404,24 @@ fn c07(r: &Run, rec: &StepRec) {
         }
         _ => Cond::True,
     };
-    let pre = ratio.lt(s(cfg.maintenance_margin_ratio)).and(s(cfg.liquidation_fee).ne(c(0))).and(enough);
+    // "not already outside its per-block price band": with a fluctuation limit f the band is
+    // [floor(last x (D - f) / D), floor(last x (D + f) / D)] around the price at the end of the
+    // previous block (harness ledger); a price exactly on an edge is not outside
+    let f = r.w.vamm_config(r.vi).fluctuation_limit_ratio;
+    let in_band = if f.is_zero() {
+        Cond::True
+    } else {
+        match (r.w.last_spot.get(r.vi).cloned().flatten(), rec.obs.spot_price) {
+            (Some(last), Some(spot)) => {
+                let d = r.w.d;
+                let upper = s(last).mul(c(d).add(s(f))).div_e(c(d));
+                let lower = s(last).mul(c(d).sub(s(f))).div_e(c(d));
+                lower.le(s(spot)).and(s(spot).le(upper))
+            }
+            _ => return, // band reference unknown: outside what this oracle can judge
+        }
+    };
+    let pre = ratio.lt(s(cfg.maintenance_margin_ratio)).and(s(cfg.liquidation_fee).ne(c(0))).and(enough).and(in_band);
     let kind = if !cfg.partial_liquidation_ratio.is_zero() { "partial-ratio>0" } else { "partial-ratio=0" };
     prove_d(
         "C07/under-margined-position-can-be-liquidated",
